@@ -39,10 +39,10 @@ def put(self, packet):                                              def run(self
 def update_vtime(self):                                                  flow_id = packet.flow_id
     weight_sum = 0.0                                                     self.queue_count[flow_id] -= 1
     now = self.env.now                                                   self.queue_byte_size[flow_id] -= packet.size
-    for i in self.active_set:                                            if self.out: self.out.put(packet)
-        weight_sum += self.weights[i]                                    self.current_packet = None
-    self.vtime += (now - self.last_time) / weight_sum
-                                                                     def reset_vtime(self):
+    for i in self.weights:                                               if self.out: self.out.put(packet)
+        if i in self.active_set:                                         self.current_packet = None
+            weight_sum += self.weights[i]
+    self.vtime += (now - self.last_time) / weight_sum                def reset_vtime(self):
                                                                          self.vtime = 0
                                                                          for class_id in self.weights.keys():
                                                                              self.finish_times[class_id] = 0.0
@@ -73,10 +73,11 @@ Encoding (modelling devices, all of them):
   integer; no cell until the first `put` of the class: `class_count.get(c, 0)` reads a missing cell as 0,
   `class_count[c] -= 1` raises `KeyError` on it), `14 + 5c` = *membership of `c` in `active_set`* (0 / 1, preset to 0:
   `add` stores 1, `remove` stores 0 and raises `KeyError` if it was 0);
-* `for i in self.active_set: weight_sum += self.weights[i]` scans the membership cells of the classes `0 … F-1` **in ascending
-  class order** and adds the weights of the members to `0.0` — the order `WFQ.weightSum` of the LTS record uses over its
-  ascending list; Python iterates in the set's hash order, which gives the same double when the weights are integers or
-  dyadic (every partial sum exact), the workloads of the harness.  A zero weight sum raises `ZeroDivisionError`, as the LTS
+* `for i in self.weights: if i in self.active_set: weight_sum += self.weights[i]` scans the membership cells of the classes
+  `0 … F-1` **in ascending class order** — the key order of the weight tables of the harness's `wfqk` leg — tests each and adds
+  the weights of the members to `0.0`: the order `WFQ.weightSum` of the LTS record uses over its ascending list.  (Python walks
+  the table in its key order; for a table in another key order the doubles agree when the weights are integers or dyadic,
+  every partial sum being exact — the theorems assume whole weights, `CfgOK`.)  A zero weight sum raises `ZeroDivisionError`, as the LTS
   record says (Python's float division does).  `len(self.active_set)` is the sum of the membership cells;
   `self.total_packets` (`sum(self.queue_count.values())`) is the sum of the `queue_count` cells of the flows `0 … F-1`;
 * `weights` and `rate` are never assigned and are read from the configuration (`Stamp.lookup cfg.weights c`, `KeyError` for a
@@ -179,11 +180,12 @@ def sumCounts : Nat → Nat → Int → (Int → Burst τ (WfqKSt τ)) → Burst
 /-- `self.total_packets` -/
 def totalPackets (F : Nat) (cont : Int → Burst τ (WfqKSt τ)) : Burst τ (WfqKSt τ) := sumCounts 0 F 0 cont
 
-/-- `for i in self.active_set: weight_sum += self.weights[i]` over the classes `c, c + 1, …, c + n - 1`, ascending -/
+/-- `for i in self.weights: if i in self.active_set: weight_sum += self.weights[i]` over the classes `c, c + 1, …, c + n - 1`,
+ascending (the table's key order) -/
 def sumWeights (cfg : WfqCfg τ) : Nat → Nat → τ → (τ → Burst τ (WfqKSt τ)) → Burst τ (WfqKSt τ)
   | _, 0, acc, cont => cont acc
   | c, n + 1, acc, cont => loadInt (cAct c) fun a =>              -- is `c` in self.active_set?
-      if a = 1 then
+      if a = 1 then                                               -- if i in self.active_set:
         match Stamp.lookup cfg.weights c with                     -- self.weights[i]
         | none => .raise keyErr
         | some w => sumWeights cfg (c + 1) n (acc + w) cont       -- weight_sum += self.weights[i]
@@ -196,7 +198,7 @@ def sumActive : Nat → Nat → Int → (Int → Burst τ (WfqKSt τ)) → Burst
 
 /-- `self.update_vtime()` at instant `now` -/
 def updateVtime (F : Nat) (cfg : WfqCfg τ) (now : τ) (cont : Burst τ (WfqKSt τ)) : Burst τ (WfqKSt τ) :=
-  sumWeights cfg 0 F Num.zero fun ws =>                           -- weight_sum = 0.0; now = self.env.now; for i in self.active_set: …
+  sumWeights cfg 0 F Num.zero fun ws =>                           -- weight_sum = 0.0; now = self.env.now; for i in self.weights: …
   loadKey cVtime fun v =>                                         -- self.vtime
   loadKey cLast fun lt =>                                         -- self.last_time
   if Num.eqb ws Num.zero then .raise zeroDiv else                 -- … / weight_sum
